@@ -108,6 +108,7 @@ type Engine struct {
 	genFiles   []*genFile
 	side       map[string]interface{} // per-path scratch for models
 	stack      []string
+	stepCap    int
 	seeded     bool
 	cur        ssa.Instruction
 	bugStack   []string
@@ -173,6 +174,7 @@ func (e *Engine) resetPath(prefix []bool) {
 	e.pcSet = map[string]bool{}
 	e.usedFresh = false
 	e.bugStack = nil
+	e.stepCap = 0
 }
 
 func (e *Engine) obl(id, kind string) *Obligation {
